@@ -54,13 +54,16 @@ def rand_range(rng):
     return [a, b]
 
 
-def run_case(ctx, S, a, b, r, fracs):
-    case = {"domain": [a, b], "range": r, "fracs": fracs}
+def run_case(ctx, S, a, b, r, fracs, subclass=False):
+    case = {"domain": [a, b], "range": r, "fracs": fracs, "subclass": subclass}
+    W = timedom.as_sub if subclass else (lambda t: t)
+    if subclass:
+        ctx.path("datetime-subclass-instants")
     stratum = "reversed-domain" if a > b else ("reversed-range" if r[0] > r[1] else "forward")
     probs = []
     span_us = (b - a) // US
     try:
-        s = S.TimeScale().domain([a, b]).range(list(r))
+        s = S.TimeScale().domain([W(a), W(b)]).range(list(r))
         lin = S.LinearScale().domain([float(Fraction((a - EPOCH) // US, 1000)), float(Fraction((b - EPOCH) // US, 1000))]).range(list(r))
         ts = []
         for f in fracs:
@@ -68,7 +71,7 @@ def run_case(ctx, S, a, b, r, fracs):
             if timedom.LO - timedelta(days=366 * 600) < t < timedom.HI + timedelta(days=366 * 600):
                 ts.append(t)
         ts = [a, b] + ts
-        ys = [s(t) for t in ts]
+        ys = [s(W(t)) for t in ts]
         dr = abs(r[1] - r[0])
         mag = abs(r[0]) + abs(r[1])
         if abs(ys[0] - r[0]) > 1e-9 * (dr + mag) or abs(ys[1] - r[1]) > 1e-9 * (dr + mag):
@@ -95,8 +98,8 @@ def run_case(ctx, S, a, b, r, fracs):
         d = timedelta(microseconds=abs(span_us) // 7 // 1000 * 1000)
         if d >= timedelta(milliseconds=1):
             t1, t2 = min(a, b) + d, min(a, b) + 4 * d
-            l1 = s(t1 + d) - s(t1)
-            l2 = s(t2 + d) - s(t2)
+            l1 = s(W(t1 + d)) - s(W(t1))
+            l2 = s(W(t2 + d)) - s(W(t2))
             if abs(l1 - l2) > 1e-7 * dr + 1e-9 * mag:
                 probs.append("equal durations map to different lengths: %r vs %r" % (l1, l2))
         # round trip inside the domain.  scale(t) carries a float error of a few ulp of the range magnitude,
@@ -206,7 +209,7 @@ def worker(ctx, shard):
         fracs = [0.5, rng.random(), rng.random(), rng.uniform(-3, 0), rng.uniform(1, 4), 0.999999, 1e-6]
         v0 = tm.n_violations
         lm.reset()
-        case, stratum, probs = run_case(ctx, S, a, b, r, fracs)
+        case, stratum, probs = run_case(ctx, S, a, b, r, fracs, subclass=rng.random() < 0.08)
         if tm.n_violations > v0:
             probs.extend("monitor:%s %r" % (v["kind"], v["detail"]) for v in tm.violations[-2:])
         if probs:
@@ -234,7 +237,7 @@ def replay(ctx, witness):
         run_history(ctx, tm, S, c)
         tm.uninstall()
         return
-    case, stratum, probs = run_case(ctx, S, c["domain"][0], c["domain"][1], c["range"], c["fracs"])
+    case, stratum, probs = run_case(ctx, S, c["domain"][0], c["domain"][1], c["range"], c["fracs"], subclass=bool(c.get("subclass")))
     if tm.n_violations:
         probs.append("monitor: %r" % tm.violations[:2])
     ctx.judge("replay", VIOLATED if probs else HELD, case, finding=probs)
